@@ -25,3 +25,6 @@ def check(repo, rep, tier):
     from .. import rules_compile as rc
     from .. import rules_emit as re_
     rep.run(re_.rule_codecs_strict, rc.CompilerModel(repo), rep, 'C10.G8')
+    rep.run(rf.rule_everything_is_parsed, em, rep, 'C10.G10', g)
+    # the command line judges every source file on its own text
+    rep.run(re_.rule_same_path, rc.CompilerModel(repo), em, rep, 'C10.G9')
